@@ -63,11 +63,22 @@ def core(ctx, lib, basis, M, rmse, keys, counts, extra, Ts, label, perm):
             v = est.get_HoRT_SE(Ts[0])
         except Exception:
             ctx.event('out-of-basis:rejected')
+        else:
+            ctx.fail('out-of-basis-descriptor-ignored', '[%s] mapping with %s (not in the uncertainty basis) gave SE %r' % (label, extra, v))
             return
-        ctx.fail('out-of-basis-descriptor-ignored', '[%s] mapping with %s (not in the uncertainty basis) gave SE %r' % (label, extra, v))
+        # the refused request leaves nothing behind: the same library object goes on to answer a mapping over only SOME of the
+        # descriptors it had just been given (and then the whole mapping without the out-of-basis one), checked like any other
+        after = ' (after a refused estimate with an out-of-basis descriptor)'
+        if len(keys) >= 2 and 'after a refused' not in label:
+            core(ctx, lib, basis, M, rmse, keys[:1], counts[:1], [], Ts, label + after, keys[:1])
+            core(ctx, lib, basis, M, rmse, keys, counts, [], Ts, label + after, perm)
         return
     if q < -1e-9 * float(np.abs(M).max()) * max(1.0, float(x @ x)):
         ctx.event('negative-quadratic-form(C14)')
+        return
+    if abs(q) <= 1e-12 * float(np.abs(M).max()) * max(1.0, float(x @ x)) and q != 0.0:
+        # x lies in the null space and round-off decides the sign of x'Mx (synthetic matrices with an antisymmetric part)
+        ctx.event('skip:quadratic-form-is-round-off')
         return
     try:
         est = lib.Estimate(mapping, 'thermochem')
